@@ -133,6 +133,19 @@ def compare_with_model(i, m):
     return P.compare_decode(c)
 
 
+def model_line(ctx, line, scoped):
+    """One command through the extracted model.  On an unscoped template the model's compiled run may loop over data
+    values just as the implementation's does (factors read out of step): bounded there, and counted."""
+    import subprocess
+    try:
+        return lib.run_model([line], timeout=1800 if scoped else 90)[0]
+    except subprocess.TimeoutExpired:
+        if scoped:
+            raise
+        ctx.dist["unscoped: the model's compiled run does not finish within the limit"] += 1
+        return None
+
+
 def check_case(ctx, c, k_cache):
     case = {'ids': c['ids'], 'seed': c['seed'], 'forced': c['forced'], 'nsub': c['nsub'], 'version': c['version'],
             'edition': c['edition'], 'compressed': c['compressed']}
@@ -155,9 +168,9 @@ def check_case(ctx, c, k_cache):
         rec = dict(kind='C08-encode-compiled-differs', case=case, interpreted=repr(e[:2])[:200], compiled=repr(ec[:2])[:200], **fl)
         ctx.violation(rec, 'encoding with and without template compilation differs, ids=%s' % c['ids'])
     line = '%s %s %s' % ('cencc' if c['compressed'] else 'cencu', B.subsets_to_model(c['py_vals']), c['toks'])
-    mo = lib.run_model([line])[0]
+    mo = model_line(ctx, line, fl['scoped'])
     c2 = dict(c, impl_enc=ec, model_enc=mo)
-    eq, detail = P.compare_encode(c2)
+    eq, detail = P.compare_encode(c2) if mo is not None else (True, '')
     if not eq and not fl['scoped'] and ec[0] == 'err' and mo.startswith('err'):
         # outside the property's premise (an operator construct crossing a replication boundary) the compiled program
         # consumes the values out of step; BOTH sides refuse, the exception class then depends on which Python value meets
@@ -195,7 +208,9 @@ def check_case(ctx, c, k_cache):
         rec = dict(kind='C08-decode-compiled-differs', case=case, interpreted=repr(di)[:300], compiled=repr(dc)[:300], **fl)
         ctx.violation(rec, 'decoding with and without template compilation differs, ids=%s' % c['ids'])
     line = '%s %d %s:%d %s' % ('cdecc' if c['compressed'] else 'cdecu', c['nsub'], e[1] or '-', e[2], c['toks'])
-    mo = lib.run_model([line])[0]
+    mo = model_line(ctx, line, fl['scoped'])
+    if mo is None:
+        return di
     eq, detail = compare_with_model(dc, mo)
     if not eq and not fl['scoped'] and dc[0] == 'err' and mo.startswith('err'):
         ctx.dist['unscoped: both compiled decoders refuse, classes differ'] += 1
